@@ -280,6 +280,23 @@ def data_plane(chk, pid, thorough, seed, rnd):
                 kinds = [e['ev'] for e in job['events']]
                 sig = 'e2e:' + (','.join(kinds[: line - 1]) if line - 1 <= len(kinds) else ','.join(kinds) + ',drain')
                 chk.add_violation(clause, sig, {'trace': tid, 'line': line, 'event': ev}, {'e2e_job': job, 'line': line})
+    # ---- and through the REAL worker entry point worker.cluster.execute() over in-memory sockets (register, wait, task,
+    #      status poll, response) -- a prefix of the same schedules
+    pjobs = [dict(j, id=i) for i, j in enumerate(ejobs[: 1500 if thorough else 60])]
+    pfiles = chk.run_harness('proto_h', pjobs)
+    chk.traces += len(pjobs)
+    prows = chk.validate('Sched_Data_Trace.tla', dict(spec='TraceSpec', constants=dict(consts(ALG3, None, 10**6, 10**6), MaxBump='1000000'), extra=['POSTCONDITION AllConsumed']), pfiles, tags=('CLAUSE', 'CONSUMED'), name='Sched_Data_Trace_proto')
+    for _tag, tid, line, ev, bad in prows['CLAUSE']:
+        for clause in sorted(bad['set']):
+            if clause.startswith(pid + '.'):
+                job = pjobs[tid]
+                chk.add_violation(clause, 'proto:' + ','.join(e['ev'] for e in job['events']), {'trace': tid, 'line': line, 'event': ev}, {'proto_job': job, 'line': line})
+    nproto = 0
+    for fn in pfiles:
+        with open(fn) as f:
+            for ln in f:
+                nproto += sum(1 for st in json.loads(ln)['steps'] if st['ev'] == 'ExecReply')
+    chk.counters.update(real_worker_process_runs=nproto)
     nreal = 0
     for fn in efiles:
         with open(fn) as f:
@@ -311,8 +328,8 @@ def run(pid, tier, seed, replay=None):
     if replay:
         with open(replay) as f:
             rp = json.load(f)['replay']
-        if 'data_job' in rp or 'e2e_job' in rp:
-            files = chk.run_harness('data_h', [rp['data_job']]) if 'data_job' in rp else chk.run_harness('e2e_h', [rp['e2e_job']])
+        if 'data_job' in rp or 'e2e_job' in rp or 'proto_job' in rp:
+            files = chk.run_harness('data_h', [rp['data_job']]) if 'data_job' in rp else chk.run_harness('e2e_h', [rp['e2e_job']]) if 'e2e_job' in rp else chk.run_harness('proto_h', [rp['proto_job']])
             rows = chk.validate('Sched_Data_Trace.tla', dict(spec='TraceSpec', constants=dict(consts(ALG3, None, 10**6, 10**6), MaxBump='1000000'), extra=['POSTCONDITION AllConsumed']), files, tags=('CLAUSE', 'CONSUMED'))
             for _tag, tid, line, ev, bad in rows['CLAUSE']:
                 for clause in sorted(bad['set']):
